@@ -203,9 +203,11 @@ Proof. exact (conj LWit.e_inner_fault (conj LWit.e_inner_reported (conj LWit.e_c
 (* The model checker Ty/Checker.v is the Go checker as it stands in the source: checker/checker.go and
    checker/types.go regenerated statement by statement (gen/GenChecker.v), interpreted (Ty/CheckRules.v),
    compute Checker.check.  Side condition checker_bridge_ok (decidable): config.Expect is not written
-   Some RKInvalid, the tree has no FunctionNode, builtins have their parser shape, callees have signatures
-   Go can produce. *)
-Require Import X.Ty.CheckRules X.Ty.CheckRulesProofs X.gen.GenChecker X.Bridge.BrCheckerRules X.Bridge.BrChecker.
+   Some RKInvalid, builtins have their parser shape, callees have signatures Go can produce (a method has its
+   receiver, a variadic function a last parameter; where FunctionNode asks the Kind() of a result / last-parameter /
+   element type, that type is not the nil reflect.Type).  Every node kind, FunctionNode included. *)
+Require Import X.Ty.CheckRules X.Ty.CheckRulesProofs X.Ty.CheckRulesLoops X.gen.GenChecker X.Bridge.BrCheckerRules
+               X.Bridge.BrCheckerFunction X.Bridge.BrChecker.
 
 Theorem C03_model_checker_is_source_rules c e :
   checker_bridge_ok c e = true -> gen_check c checker_src e = Some (Checker.check c e).
@@ -213,7 +215,7 @@ Proof. exact (model_checker_is_source_rules c e). Qed.
 Print Assumptions C03_model_checker_is_source_rules.
 
 Theorem C03_model_visitor_is_source_rules c e cols st :
-  no_function e = true -> bridge_ok c cols e st = true ->
+  functions_ok c e = true -> bridge_ok c cols e st = true ->
   gen_visit c checker_src (Ast.esize e) cols e st = Some (Checker.visit c cols e st).
 Proof. exact (model_visitor_is_source_rules c e cols st). Qed.
 Print Assumptions C03_model_visitor_is_source_rules.
@@ -257,3 +259,33 @@ Theorem C03_member_method_call_is_source : forall c drf t name fuel,
       (X.Ty.MemberRules.gen_method_type X.gen.GenMembers.member_funcs X.gen.GenMembers.member_consts (cc_te c) fuel t name).
 Proof. exact X.Bridge.BrMembersChecker.checker_methodType_call_is_source. Qed.
 Print Assumptions C03_member_method_call_is_source.
+
+(* FunctionNode (checker/checker.go) regenerated = the EFunction case of Checker.visit: the lookup in v.types, the
+   detection of the fast signature (node.Fast), checkFunc, the non-strict / defaultType tail; for any meaning M of the
+   calls that meets the specification and any results `rec` of the visits of the arguments *)
+Theorem C03_function_node_is_source_rules c M (HM : sem_ok c M) rec a name args fast cols st :
+  seq_ok c rec cols args st ->
+  (forall fn m, Checker.function_callee c name = Some (fn, m) -> sig_ok fn m = true /\ fast_probe_ok fn m = true) ->
+  visit_node checker_src c M rec cols (Ast.EFunction a name args fast) st
+  = Some (Checker.visit c cols (Ast.EFunction a name args fast) st).
+Proof. exact (node_function c M HM rec a name args fast cols st). Qed.
+Print Assumptions C03_function_node_is_source_rules.
+
+(* the side condition on the probed types cannot be dropped: a "function type" whose result is the nil type *)
+Theorem C03_function_node_needs_probe_types_refuted :
+  exists c a name args fast,
+    (forall fn m, Checker.function_callee c name = Some (fn, m) -> sig_ok fn m = true) /\
+    visit_node checker_src c (model_sem c) (fun cols e st => Some (Checker.visit c cols e st)) nil (Ast.EFunction a name args fast) None
+    <> Some (Checker.visit c nil (Ast.EFunction a name args fast) None).
+Proof. exact node_function_refuted. Qed.
+Print Assumptions C03_function_node_needs_probe_types_refuted.
+
+(* the earlier side condition "no FunctionNode in the tree" is a special case of the present one *)
+Theorem C03_no_function_is_special_case c e : no_function e = true -> functions_ok c e = true.
+Proof. exact (no_function_functions_ok c e). Qed.
+Print Assumptions C03_no_function_is_special_case.
+
+Example C03_checker_bridge_functions_nonvacuous :
+  checker_bridge_ok BrFnEx.cfg BrFnEx.ex_ok = true /\ checker_bridge_ok BrFnEx.cfg BrFnEx.ex_bad = true /\
+  no_function BrFnEx.ex_ok = false.
+Proof. exact checker_bridge_ok_functions. Qed.
